@@ -203,8 +203,15 @@ Definition prim_freeze (n : nat) (p : prim) (value : Z) : constr :=
   if is_max p then mkC [(1, Obj n)] GE value else mkC [(1, Obj n)] LE value.
 
 (* admissible option sets (C02's quantifier) *)
+Fixpoint distinct_crits (cs : list (crit * list Z)) : bool :=
+  match cs with
+  | [] => true
+  | c :: t => negb (existsb (fun d => crit_eqb (fst d) (fst c)) t) && distinct_crits t
+  end.
+
 Definition admissible (I : instance) (o : opts) : bool :=
   (negb (o_stab o) || two_sided I) &&
+  distinct_crits (o_crits o) &&          (* each criterion is requested at most once (one flag each) *)
   forallb (fun c =>
     match fst c with
     | Generous => let cut := arg (snd c) 0 1 in (1 <=? cut) && ((cut <=? max_rank I) || (max_rank I =? 0))
